@@ -598,6 +598,35 @@ class SamplingMethod(DirectMethod):
             self.set_initial_all(stage, opti, stage._initial)
             self.set_parameter(stage, opti)
 
+    def to_function(self, stage, name, args, results, *margs):
+        """A guess for a free t0/T passed as argument implies the guesses of the localized time variables,
+        as it does for set_initial (see set_initial_all)"""
+        opti = self.opti
+        args_v = [stage.value(a) for a in args]
+        all_args = vvcat([MX(a) for a in args_v]) if args_v else MX(0, 1)
+        horizon = [e for e in [self.T, self.t0] if isinstance(e, MX) and e.is_symbolic() and ca.depends_on(all_args, e)]
+        local, local_init = [], []
+        if horizon and (self.time_grid.localize_t0 or self.time_grid.localize_T):
+            cur = lambda e: e if any(is_equal(e, h) for h in horizon) else DM(opti.debug.value(e, opti.initial()))
+            grid_init = self.time_grid(cur(self.t0), cur(self.T), self.N)
+            if self.time_grid.localize_t0:
+                for k in range(1, self.N+1):
+                    local.append(self.t0_local[k]); local_init.append(grid_init[k])
+            if self.time_grid.localize_T:
+                for k in range(not isinstance(self.time_grid, FreeGrid), self.N):
+                    local.append(self.T_local[k]); local_init.append(grid_init[k+1]-grid_init[k])
+            keep = [not ca.depends_on(all_args, e) for e in local]
+            local = [e for e,f in zip(local, keep) if f]
+            local_init = [e for e,f in zip(local_init, keep) if f]
+        if not local:
+            return opti.to_function(name, args_v, results, *margs)
+        inner_margs = list(margs)
+        if len(margs)>0 and isinstance(margs[0], list) and np.all([isinstance(e,str) for e in margs[0]]):
+            inner_margs[0] = list(margs[0]) + ["time_local"]
+        f = opti.to_function(name, args_v + [vcat(local)], results, *inner_margs)
+        f_args = f.mx_in()[:len(args_v)]
+        return Function(name, f_args, f.call(list(f_args) + [vcat(local_init)],True,False), *margs)
+
     def set_initial_all(self, stage, master, initial_guesses):
         """Apply all initial guesses, including the localized time grid implied by the guessed t0 and T"""
         opti = master.opti if hasattr(master, 'opti') else master
